@@ -9,6 +9,7 @@ K: exhaustive trees of operation histories (depth 3 quick / 4 thorough) over a g
 oracle: an independent Python (t0, dt, n) reference machine run along every history
 """
 import json
+import re
 from fractions import Fraction
 
 import numpy as np
@@ -84,6 +85,18 @@ EXTRA = [
     [{"k": "slice", "a": 0, "b": None, "c": 1}, {"k": "add", "kind": "int", "v": 2}],  # full slice keeps consistency
     [{"k": "slice", "a": 2, "b": 1, "c": 1}, {"k": "add", "kind": "int", "v": 2}, {"k": "mul", "v": 2}],  # empty
     [{"k": "div", "v": 3}, {"k": "mul", "v": 3}],
+    # NEARLY uniform time operands (round 11): steps that differ by one clock tick (1 ps) although the step itself is
+    # >= 1e6 ps, i.e. a relative difference far below any float tolerance -- must be refused, axis unchanged, and the
+    # axis must go on working afterwards
+    [{"k": "addarr", "kind": "ut", "r0": 1, "dr": 1, "near": "mid-"}, {"k": "add", "kind": "int", "v": 1},
+     {"k": "subarr", "kind": "ta", "r0": 0, "dr": "half", "near": "last+"}],
+    [{"k": "subarr", "kind": "ut", "r0": 0, "dr": "half", "near": "mid+"}, {"k": "addarr", "kind": "ta", "r0": 2, "dr": 3, "near": "first-"},
+     {"k": "mul", "v": 2}],
+    [{"k": "addarr", "kind": "ta_sec3", "near": "thirds"}, {"k": "copy"}, {"k": "addarr", "kind": "ut", "r0": 0, "dr": 2, "near": "wobble"}],
+    [{"k": "mul", "v": 3}, {"k": "addarr", "kind": "ta", "r0": -1, "dr": 1, "near": "last-"},
+     {"k": "subarr", "kind": "ut", "r0": 1, "dr": "half", "near": "wobble"}],
+    [{"k": "addarr", "kind": "ut", "r0": 1, "dr": 1}, {"k": "subarr", "kind": "ta", "r0": 1, "dr": 1, "near": "mid+3"},
+     {"k": "addarr", "kind": "ta_sec3", "near": "thirds"}],
 ]
 
 
@@ -116,6 +129,25 @@ def concretize(sch, axis, cur_len, cur_dt_ps, cur=None):
         if op.get("nonuniform"):
             n = max(3, cur_len)
             vals = [0, 1] + [3 + j for j in range(n - 2)]
+        elif kind == "ta_sec3":
+            # the instants of a 3 Hz clock written as float seconds: in whole ps the steps are 333333333333 / ...334
+            from nitime.timeseries import TimeArray
+            vals = [int(x) for x in np.asarray(TimeArray(np.arange(n) / 3., time_unit="s"))]
+        elif op.get("near"):
+            # a time operand (ps values) whose steps differ by a few ps only; the step is kept >= 1e6 ps where the
+            # operation allows it ("half": half the current interval, so that -= would otherwise be permitted)
+            near = op["near"]
+            dr = op["dr"]
+            dr_ps = max(cur_dt_ps // 2, 1) if dr == "half" else max(dr * cf, 10 ** 6)
+            if near == "wobble":       # steps dr+1, dr-1, dr, dr+1, ... ps
+                vals = [op["r0"] * cf + j * dr_ps + (1 if j % 3 == 1 else 0) for j in range(n)]
+            else:
+                vals = [op["r0"] * cf + j * dr_ps for j in range(n)]
+                if n:
+                    m = re.match(r"(first|mid|last)([+-])(\d*)$", near)
+                    where, sg, mag = m.group(1), m.group(2), int(m.group(3) or 1)
+                    i = {"first": 0, "mid": n // 2, "last": n - 1}[where]
+                    vals[i] += mag if sg == "+" else -mag
         else:
             dr = op["dr"]
             if dr == "same":       # same interval as the axis has now (given in ps below)
@@ -169,6 +201,10 @@ def operand(ts, op, axis, u=None):
         if kind == "ta":
             t = ts.TimeArray(np.array(l, dtype=np.int64), time_unit="ps")
             t.convert_unit(unit)
+            return t
+        if kind == "ta_sec3":
+            t = ts.TimeArray(np.arange(len(l)) / 3., time_unit="s")
+            assert [int(x) for x in np.asarray(t)] == list(l)
             return t
         if kind == "int64":
             return np.array(l, dtype=np.int64)
@@ -552,7 +588,8 @@ def run(ctx):
     ctx.extra["model_impl_disagreements"] = len(bad)
     ctx.extra["rule"] = ("exhaustive: every sequence of length <= depth over the operation alphabet (12 basic / 14 extended schemes; "
                          "array operands rebuilt for the current length) from each axis of the generating set, plus hand-written "
-                         "histories (zero / negative factors, operands of wrong length, int32 / list / TimeArray operands) and the corpus; "
+                         "histories (zero / negative factors, operands of wrong length, int32 / list / TimeArray operands, time operands whose steps differ by 1-3 ps only or "
+                         "come from float seconds at 3 Hz) and the corpus; "
                          "evaluations = nodes of the history trees; a K case = (axis, first operation) subtree")
     return ctx.finish(
         trusted=["numpy int64 in-place arithmetic, basic slicing and floor division as modelled in Model/UTimeOps.v (no wrap-around: small axes)"],
